@@ -82,6 +82,14 @@ const (
 	BFailNowD          // FailNow at another call stack than BFailNowC: same message, different site
 	BPanicDivA         // integer divide by zero at site A
 	BPanicDivB         // integer divide by zero at site B (same message, different site)
+	BCleanupSkipThenFatal   // registers a cleanup that skips, then Fatalf
+	BCleanupSkipThenPanic   // registers a cleanup that skips, then a plain panic
+	BCleanupRejectThenFatal // registers a cleanup whose draw is rejected, then Fatalf
+	BCleanupRejectThenPanic // registers a cleanup whose draw is rejected, then a plain panic
+	BErrorfThenFatalA // Errorf, then Fatalf at site A in the same test case
+	BRcpTwoPanickingCleanups
+	BRcpFatalAndSkipCleanups
+	BRcpThreeAbnormalCleanups
 	numBeh
 )
 
@@ -90,7 +98,9 @@ var behNames = [...]string{"pass", "Skip", "Errorf", "Errorf;Skip", "Fail", "Fat
 	"Cleanup(Errorf)", "Cleanup(panic)", "Cleanup(Fatalf)", "Cleanup(Cleanup(Errorf))", "go-Errorf", "go-Fail", "SkipNow", "Skipf", "Cleanup(pass)",
 	"rcp:none", "rcp:1-cleanup", "rcp:3-cleanups", "rcp:nested-registration", "rcp:middle-cleanup-panics", "rcp:middle-cleanup-Errorfs", "rcp:Context-in-cleanup",
 	"rcp:cleanups-then-Fatalf", "rcp:cleanups-then-Skip", "rcp:cleanups-then-panic", "rcp:cleanups-then-Errorf", "rcp:Custom-with-cleanups", "rcp:Custom-skips-once", "rcp:cleanup-registered-from-goroutine", "rcp:Custom-registers-then-Fatalf", "rcp:Custom-registers-then-panics", "rcp:last-cleanup-skips", "rcp:Skip-with-Cleanup(Errorf)",
-	"Cleanup(Errorf);Skip", "Errorf;rejected-draw", "Cleanup(Skip)", "Error()", `Errorf("")`, "FailNow@D", "div-by-zero@A", "div-by-zero@B"}
+	"Cleanup(Errorf);Skip", "Errorf;rejected-draw", "Cleanup(Skip)", "Error()", `Errorf("")`, "FailNow@D", "div-by-zero@A", "div-by-zero@B",
+	"Cleanup(Skip);Fatalf", "Cleanup(Skip);panic", "Cleanup(rejected-draw);Fatalf", "Cleanup(rejected-draw);panic", "Errorf;Fatalf@A",
+	"rcp:two-panicking-cleanups-above-a-plain-one", "rcp:Fatalf-cleanup-and-Skip-cleanup-above-plain-ones", "rcp:three-abnormal-cleanups-interleaved"}
 
 func (b Beh) String() string { return behNames[b] }
 
@@ -106,6 +116,10 @@ func (b Beh) Falsifies() bool {
 	}
 	if b >= BRcpNone && b < BCleanupErrorfSkip {
 		return false
+	}
+	switch b {
+	case BRcpTwoPanickingCleanups, BRcpFatalAndSkipCleanups, BRcpThreeAbnormalCleanups:
+		return true
 	}
 	return true
 }
@@ -137,6 +151,10 @@ func (b Beh) Site() string {
 	case BFatal:
 		return "F"
 	case BPanicStr, BPanicErr, BPanicStruct, BPanicNil:
+		return "P"
+	case BCleanupSkipThenFatal, BCleanupRejectThenFatal, BErrorfThenFatalA:
+		return "A"
+	case BCleanupSkipThenPanic, BCleanupRejectThenPanic:
 		return "P"
 	case BNilDeref:
 		return "N"
@@ -250,6 +268,21 @@ func Perform(t *rapid.T, b Beh, msg string) {
 		wg.Add(1)
 		go func() { defer wg.Done(); t.Fail() }()
 		wg.Wait()
+	case BErrorfThenFatalA:
+		t.Errorf("nonfatal: %s", msg)
+		siteA(t, msg)
+	case BCleanupSkipThenFatal:
+		t.Cleanup(func() { t.Skip("skip from cleanup " + msg) })
+		siteA(t, msg)
+	case BCleanupSkipThenPanic:
+		t.Cleanup(func() { t.SkipNow() })
+		sitePanic("boom " + msg)
+	case BCleanupRejectThenFatal:
+		t.Cleanup(func() { rejectingGen.Draw(t, "never") })
+		siteA(t, msg)
+	case BCleanupRejectThenPanic:
+		t.Cleanup(func() { rejectingGen.Draw(t, "never") })
+		sitePanic("boom " + msg)
 	case BFailNowD:
 		siteD(t)
 	case BPanicDivA:
